@@ -5,7 +5,18 @@
      G reset | c s e c s e ... | cps    -> one LintGroup::lint call (sentence-schema struct rule + any-word pattern
                                            rule) on these tokens and this source, chunk cache carried over from the
                                            previous G lines unless reset = 1:  "L s e id,s e id"  / "L -" / PANIC
-     R c s e c s e ...                  -> LongSentences::lint on these tokens: "R s e,s e" / "R -" / PANIC *)
+     R c s e c s e ...                  -> LongSentences::lint on these tokens: "R s e,s e" / "R -" / PANIC
+     T cps                              -> Document::new_plain_english(text).tokens as kind classes (ASCII text; C02's
+                                           lexer + the nine passes, Model/C12Doc.run_doc): "T c s e w c s e w ..." with
+                                           w = twin_loc + 1 (0 = none) / "T -" / PANIC
+     L cps                              -> PlainEnglish.parse(text) likewise (run_raw): "L c s e w ..." *)
+let quads tag r =
+  match r with
+  | None -> print_endline "PANIC"
+  | Some [] -> print_endline (tag ^ " -")
+  | Some ts ->
+      print_endline (tag ^ String.concat "" (List.map (fun (c, (s, (e, w))) ->
+        Printf.sprintf " %d %d %d %d" (int_of_nat c) (int_of_nat s) (int_of_nat e) (int_of_nat w)) ts))
 let rec triples = function
   | c :: s :: e :: t -> (nat_of_int c, (nat_of_int s, nat_of_int e)) :: triples t
   | _ -> []
@@ -31,6 +42,8 @@ let () =
          | Some [] -> print_endline "R -"
          | Some ls -> print_endline ("R " ^ String.concat ","
                         (List.map (fun (s, e) -> Printf.sprintf "%d %d" (int_of_nat s) (int_of_nat e)) ls)))
+    | 'T' -> quads "T" (run_doc (text_of_line body))
+    | 'L' -> quads "L" (run_raw (text_of_line body))
     | 'G' ->
         (match split_bar body with
          | [r; toks; src] ->
